@@ -82,7 +82,54 @@ def prepare_reference(prop):
 
 
 
-def run_matrix(rep, prop, tier, source, binprefix, extra_flags=()):
+def residue_configs(tier):
+    """(name, cc, opt, variant) for the dead-stack scan (h_residue.c, no sanitizer).  No -O0 builds: the scan looks for
+    stores the optimiser removed, -O0 removes none, and its SIMD transforms spill the whole block being hashed into their
+    own frames (clang -O0 GOST: the 40-byte tail is found there on the unchanged tree although the context is wiped)."""
+    q = [('gcc-O2-sse41', 'gcc', '-O2', 'sse41'), ('clang-O2-nosimd', 'clang', '-O2', 'nosimd'), ('gcc-O3-native', 'gcc', '-O3', 'native'),
+         ('clang-O1-sse41', 'clang', '-O1', 'sse41'), ('gcc-Os-sse41', 'gcc', '-Os', 'sse41'), ('gcc-O1-avx', 'gcc', '-O1', 'avx'),
+         ('clang-O3-native', 'clang', '-O3', 'native'), ('gcc-O2-smalltab', 'gcc', '-O2', 'smalltab')]
+    if tier == 'quick':
+        return q
+    out = []
+    for cc in ('gcc', 'clang'):
+        for opt in ('-O1', '-O2', '-O3', '-Os'):
+            for v in ('nosimd', 'sse2', 'sse41', 'avx', 'avx2', 'shani', 'native', 'smalltab'):
+                out.append(('%s%s-%s' % (cc, opt, v), cc, opt, v))
+    return out
+
+
+def run_residue(rep, prop, tier, bins, residue_set):
+    """Dead-stack scan: every one-shot / init entry point runs on a stack the harness owns; message tail (C04, set 0)
+    or keyed pads (C07, set 1) must not be found there afterwards."""
+    from concurrent.futures import ThreadPoolExecutor
+    cfgs = residue_configs(tier)
+
+    def build(cfg):
+        name, cc, opt, var = cfg
+        try:
+            return core.compile_c(prop, 'h_residue-' + name, [os.path.join(HERE, 'h_residue.c')],
+                                  flags=VARIANTS[var] + ['-DRESIDUE_SET=%d' % residue_set], cc=cc, opt=opt, san='none', quiet=True)
+        except core.BuildError:
+            return None
+    with ThreadPoolExecutor(max_workers=core.NCPU) as ex:
+        built = list(ex.map(build, cfgs))
+    n = 0
+    for (name, cc, opt, var), b in zip(cfgs, built):
+        cfgname = 'residue:' + name
+        if b is None:
+            rep.configs.append({'name': cfgname, 'status': 'skipped: does not compile'})
+            continue
+        bins[cfgname] = b
+        core.run_sharded(rep, b, tier, nshards=1, config=cfgname)
+        rep.configs.append({'name': cfgname, 'cc': cc, 'opt': opt, 'flags': VARIANTS[var], 'status': 'ran'})
+        n += 1
+    rep.extra['residue_builds_run'] = n
+    if 0 == n:
+        rep.harness_errors.append('no dead-stack configuration could be built')
+
+
+def run_matrix(rep, prop, tier, source, binprefix, extra_flags=(), residue_set=None):
     """Reference material, python-side table checks, build every configuration in parallel, run each
     sharded, fill the model-checking evidence and finish (prints verdict lines, exits)."""
     from concurrent.futures import ThreadPoolExecutor
@@ -126,6 +173,8 @@ def run_matrix(rep, prop, tier, source, binprefix, extra_flags=()):
         ran += 1
     if 0 == ran:
         rep.harness_errors.append('no configuration could be built')
+    if residue_set is not None:
+        run_residue(rep, prop, tier, bins, residue_set)
     if any('giving up' in n for n in rep.notes):
         rep.exhaustive = False
     m = rep.stats.get('_model', {})
